@@ -63,6 +63,16 @@ def concretise(style, shapes) -> str:
     return "\n".join(out)
 
 
+def selfnamed_src(style) -> str:
+    """A module-level function and a static method whose ordinary parameters are called self / cls (no receiver among them)."""
+    def doc(ind):
+        return {"NUMPYDOC": f'{ind}"""Summary line.\n\n{ind}Parameters\n{ind}----------\n{ind}self : str\n{ind}    The first.\n{ind}cls : str\n{ind}    The second.\n{ind}"""',
+                "GOOGLE": f'{ind}"""Summary line.\n\n{ind}Args:\n{ind}    self (str): The first.\n{ind}    cls (str): The second.\n{ind}"""',
+                "REST": f'{ind}"""Summary line.\n\n{ind}:param str self: The first.\n{ind}:param str cls: The second.\n{ind}"""'}[style]
+    return (f"def attach(self: int, cls) -> int:\n{doc('    ')}\n    ...\n\n\n"
+            f"class SelfHolder:\n    @staticmethod\n    def sattach(self: int, cls) -> int:\n{doc('        ')}\n        ...\n")
+
+
 def twin_src(style) -> str:
     """A module with a class Config of its own and a function whose docstring types both parameters as Config."""
     doc = {"NUMPYDOC": '    """Summary line.\n\n    Parameters\n    ----------\n    c : Config\n        The c.\n    d : Config\n        The d.\n    """',
@@ -84,7 +94,7 @@ def main(v: Verdict) -> None:
         # a function of the package file that is called like a module of the package (the docstring library lists the module under that name)
         pf_params, pf_res = [{"hint": "none", "doc": "str"}, {"hint": "int", "doc": "str"}], {"hint": "int", "doc": "none"}
         pkgfile = "from __future__ import annotations\n\n\ndef lookup(p1, p2: int) -> int:\n" + docstring(style, pf_params, pf_res) + "\n    ...\n"
-        d = write_pkg({"__init__.py": pkgfile, "lookup.py": "\"\"\"Module lookup.\"\"\"\n\n\ndef other_fn() -> int:\n    ...\n", f"{MOD}.py": concretise(style, shapes), "twina.py": twin_src(style), "twinb.py": twin_src(style), "twinz.py": twin_src(style)}, pkg)
+        d = write_pkg({"__init__.py": pkgfile, "lookup.py": "\"\"\"Module lookup.\"\"\"\n\n\ndef other_fn() -> int:\n    ...\n", "selfmod.py": selfnamed_src(style), f"{MOD}.py": concretise(style, shapes), "twina.py": twin_src(style), "twinb.py": twin_src(style), "twinz.py": twin_src(style)}, pkg)
         for pref in ("CODE", "DOCSTRING"):
             for warn in ("WARN", "IGNORE"):
                 jobs.append({"src": d, "opts": Opts(docstyle=style, tsp=pref, tsw=warn), "timeout": 600})
@@ -132,6 +142,19 @@ def main(v: Verdict) -> None:
             nw = sum(1 for w in r.warnings if w["level"] == "WARNING" and re.search(re.escape(f"{pkg}/lookup") + r"(?![0-9A-Za-z_/])", w["msg"]))
             o = {"missing": False, "ptys": [type_term(p["type"]) for p in dd.params], "rtys": [type_term(x["type"]) for x in dd.results], "nwarn": nw}
         obs.append({"id": f"{style}-{pref}-{warn}#package-file-function", "kind": "fn", "sc": sc_pf, "obs": o})
+        # ordinary parameters that are called self / cls: first hinted int and documented str, second documented only
+        sc_sn = dict(sc_pf, params=[{"hint": "int", "doc": "str"}, {"hint": "none", "doc": "str"}])
+        from facts import member
+        cands = [("attach", [x[1] for x in stubs.top("attach") if x[1].kind == "fun"], f"{pkg}/selfmod/attach"),
+                 ("sattach", [m for m in (member(x[1], "sattach", "fun") for x in stubs.top("SelfHolder") if x[1].kind == "class") if m is not None], f"{pkg}/selfmod/SelfHolder/sattach")]
+        for nm_, found, fid in cands:
+            if len(found) != 1:
+                o = {"missing": True, "ptys": [], "rtys": [], "nwarn": 0}
+            else:
+                dd = found[0]
+                nw = sum(1 for w in r.warnings if w["level"] == "WARNING" and re.search(re.escape(fid) + r"(?![0-9A-Za-z_/])", w["msg"]))
+                o = {"missing": False, "ptys": [type_term(p["type"]) for p in dd.params], "rtys": [type_term(x["type"]) for x in dd.results], "nwarn": nw}
+            obs.append({"id": f"{style}-{pref}-{warn}#parameters-called-self-cls:{nm_}", "kind": "fn", "sc": sc_sn, "obs": o})
         params = {p["id"]: p for p in api.get("parameters", [])}
         for mod in ("twina", "twinb", "twinz"):
             ptypes = []
